@@ -13,6 +13,14 @@ import (
 	yaml "sigs.k8s.io/yaml/goyaml.v3"
 )
 
+// verifRoot is the /verif checkout this harness belongs to (set by ./check).
+func verifRoot() string {
+	if r := os.Getenv("VERIF_ROOT"); r != "" {
+		return r
+	}
+	return "/verif"
+}
+
 // ---------- PRNG: every random choice of a run derives from one splitmix64 state ----------
 
 type Rng struct{ s uint64 }
